@@ -55,3 +55,23 @@ Example c01_complete_example :
                          [SWrite 0 [1;2;3;4;5;6;7]; SWrite 5000000 [8;9]; SClose 9000000] []) = Some l /\
             next_time l = None /\ sink_bytes l = [1;2;3;4;5;6;7;8;9] /\ l_sink_closed l <> None.
 Proof. eexists. split; [vm_compute; reflexivity|]. split; [vm_compute; reflexivity|]. split; [vm_compute; reflexivity|]. vm_compute. discriminate. Qed.
+
+(** C15 for the benign cells of the teardown matrix: a link of data-preserving toxics whose sender
+    has closed and on which nothing can happen any more has no process left - the reader has
+    finished, every stage has returned and closed its stub, the writer has closed the receiver *)
+Theorem preserving_chains_end_clean chain src draws sd sigma l :
+  chain_ok chain ->
+  sched_run (link_init_slow chain src draws sd) sigma = Some l ->
+  step_now l = None -> next_time l = None -> l_rd l = RClosed ->
+  Forall (fun s => s_st s = Exited /\ s_closed s = true) (l_stubs l) /\ l_sink_closed l <> None /\ sink_bytes l = src_bytes src.
+Proof.
+  intros Hc Hrun Hnow Hnext Hrd.
+  destruct (c01_no_deadlock chain src draws sd sigma l Hc Hrun Hnow Hnext) as [_ H]. rewrite Hrd in H.
+  destruct H as (Hb & Hg & Hsc). split; [|split; assumption].
+  destruct (link_init_ok chain src draws sd Hc) as (H1 & H2 & H3).
+  destruct (sched_run_closure sigma _ _ H1 H2 (init_closure chain src draws sd) Hrun) as (_ & _ & Hci).
+  pose proof (chain_inv_all _ _ _ Hci) as Hinv.
+  clear -Hg Hinv. induction (l_stubs l) as [|s ss IH]; [constructor|].
+  inversion Hg; subst. inversion Hinv as [|? ? [Ha _] Hr]; subst. constructor; [|apply IH; assumption].
+  split; [assumption|]. apply Ha. assumption.
+Qed.
